@@ -493,6 +493,8 @@ async fn fn_independent_pre(
         debug!("Using preprocessing without trusted dealer, generating delta and random shares");
         random_shares = FileOrMemBuf::new(ctx.tmp_dir, secret_bits)?;
         delta = Delta(random());
+        #[cfg(polytune_verif)]
+        crate::verif::probe("delta", p_own, &[delta.0]);
         shared_two_by_two = Some(shared_rng_pairwise(channel, p_own, p_max).await?);
         multi_shared_rand = Some(shared_rng(channel, p_own, p_max).await?);
         for chunk_size in chunk_size_iter(secret_bits, ctx.random_shares_batch_size()) {
@@ -680,6 +682,8 @@ async fn garble(
                         .next()
                         .ok_or(MpcError::MissingAndShareForInst(w))??;
                     let r = r_sig ^ r_gamma;
+                    #[cfg(polytune_verif)]
+                    let r = crate::verif::tap_bit("garble_row_bit", ctx.p_own, w, r);
                     let mac_r_key_s_0 = &mac_r_sig_key_s_sig ^ &mac_r_gamma_key_s_gamma;
                     let mac_r_key_s_1 = &mac_r_key_s_0 ^ &mac_r_x_key_s_x;
                     let row0 = Share(r, mac_r_key_s_0.clone());
